@@ -20,12 +20,25 @@ def main(c):
             refgen.run_c02(c, exe, base, scale)
         except ImportError:
             c.count('reference_written_files', 0)
+        if c.tier == 'thorough':
+            # second opinion: the same histories in a plain -O2 build under valgrind memcheck (uninitialised values reaching a
+            # branch or an address, invalid accesses inside arena memory). The driver's own verdict lines are not re-counted here.
+            vexe = vlib.build_driver('c02', 'plain')
+            d = os.path.join(base, 'vg'); os.makedirs(d)
+            c3 = vlib.Check('C02', 'exploration', ['--tier', c.tier])
+            r = vlib.run_valgrind(c3, [vexe, 'gen', str(c.seed * 1000 + 900), '1', d], timeout=3 * 3600, what='c02 gen under memcheck')
+            for k2, v in c3.observed.items():
+                c.count(k2, v)
+            for key, what, rd, n in c3.violations:
+                c.violation(key, what, text=open(os.path.join(rd, 'README')).read())
+            for m in c3.inconclusive:
+                c.fail_harness(m)
     finally:
         shutil.rmtree(base, ignore_errors=True)
     c.rule = ('per column chunk a reference cursor (rows delivered, dense values delivered) over the model table predicts every observation of read_batch/skip/has_next/remaining/'
               're-create; bounded-exhaustive histories (length <= 3, thorough 4) over a 15-symbol alphabet on chunks of <= 12 rows, random histories of <= 31 ops elsewhere; user buffers are '
               'exact-size (k slots) heap blocks; batch reader: 12 batch sizes x projections, per batch equal row counts in all columns, null bitmap vs definition levels with one learned '
-              'polarity, concatenation equals the column content. distinct = hash(history, chunk levels) / hash(batch configuration)')
+              'polarity, concatenation equals the column content. Thorough: the generated-table histories once more in a plain -O2 build under valgrind memcheck; errors whose innermost frame is carquet code are violations. distinct = hash(history, chunk levels) / hash(batch configuration)')
     c.assumptions = ['read_batch(k) may deliver fewer than k rows (documented "up to") but never 0 while rows remain', 'num_threads=1 (schedules are C07)']
     for k in ('histories_run', 'hist_partial_reads', 'hist_skip_inside_chunk', 'hist_k0_calls', 'hist_recreations', 'chunks_with_exhaustive_histories',
               'batches_checked', 'null_bitmaps_checked', 'projections_checked', 'files_with_multi_page_chunks', 'batches_splitting_row_group'):
